@@ -48,6 +48,15 @@ const (
 	// C12 divergence, but it cuts the program short. Avoided by writing the
 	// derived table as a common table expression.
 	avoidKnownSubqueryPath = false
+	// Round 5. A user-defined function whose body changes a table (INSERT / UPDATE / DELETE), called
+	// per row by a query over >= 160 rows: the workers run the bodies concurrently, the statements
+	// are serialised by the transaction's operation mutex in the order the workers arrive, so the
+	// order of the inserted rows (and the bytes committed) depends on --cpu and on the schedule
+	// -> signature udf_dml_in_parallel_query_order. The program neither calls RAND/NOW nor assigns
+	// a variable inside a query, so it is inside the property as stated; no small repair (csvq would
+	// have to evaluate such queries sequentially or refuse data changes inside functions called from
+	// queries: a design decision). Avoided by never drawing such a function (procedural sub-check).
+	avoidKnownUDFDML = true
 )
 
 // ---------------------------------------------------------------------
@@ -79,6 +88,10 @@ type detCase struct {
 	Stdin  string `json:"stdin,omitempty"`  // data on standard input (sub-check sources)
 	OutFmt string `json:"outfmt,omitempty"` // CLI: --format of the result sets ("" = CSV)
 	OutTo  string `json:"outto,omitempty"`  // CLI: --out FILE for the result sets ("" = stdout)
+	// round 5
+	CPUAt   int      `json:"cpuat,omitempty"`   // k > 0: the session starts with cpu 1 and "SET @@CPU TO <setting>" runs before statement k-1
+	CLIOpts []string `json:"cliopts,omitempty"` // CLI: further command-line options
+	Capture bool     `json:"capture,omitempty"` // in-process: standard output is captured and compared (PRINT, result sets of blocks)
 }
 
 var sizeClasses = []int{5, 79, 80, 81, 159, 160, 161, 239, 240, 241, 320, 400, 1000}
@@ -250,6 +263,10 @@ type gctx struct {
 	gDom  int
 	gs    []string // column g of t1 as generated, in file order
 	hs    []string // column h of t1
+
+	flagsSet map[string]bool // round 5: flags set by the prelude
+	t1Temp   bool            // round 5: t1 is a temporary table (sub-check sources)
+	anaTags  []string        // round 5: tags of the analytic functions drawn for the statement being built
 }
 
 func (g *gctx) pct(label string, p int) bool { return fw.Pct(g.t, label, p) }
@@ -341,7 +358,46 @@ func (g *gctx) genFilter() stmt {
 	return stmt{SQL: sql, Kind: "filter", Sel: true}
 }
 
+// genJoin5 (round 5): the join forms no case had. NATURAL joins and outer joins with USING go
+// through the per-record rebuild in load_view.go (the merged column takes the value of the other side
+// when its own is NULL); three tables chain two joins (the second joins a view whose records were
+// assembled by the first one's workers); a small left table with a large right one is split by
+// CalcMinimumRequired below 80 rows per goroutine.
+func (g *gctx) genJoin5() stmt {
+	var sql, kind string
+	// the small-left forms twice as often: they need a large t1 AND a small t2 to differ from the others
+	switch []int{0, 1, 2, 3, 4, 5, 6, 7, 8, 6, 6, 7}[fw.Uniform(g.t, "join5Kind", 12)] {
+	case 0:
+		sql, kind = "SELECT id, a.g, a.v, b.bv, b.bs FROM t1 a NATURAL JOIN (SELECT id, v AS bv, s AS bs FROM t3) b"+g.where("a.", 30), "join_natural"
+	case 1:
+		sql, kind = "SELECT id, a.g, a.v, b.bv FROM t1 a NATURAL "+pickS(g, "natOuter", []string{"LEFT", "RIGHT", "FULL"})+" JOIN (SELECT id, v AS bv FROM t3) b", "join_natural_outer"
+	case 2:
+		sql, kind = "SELECT id, a.g, a.s, b.v AS bv FROM t1 a "+pickS(g, "usingOuter", []string{"LEFT", "RIGHT", "FULL"})+" JOIN t3 b USING (id)"+pickS(g, "usingOuterX", []string{"", " WHERE a.g IS NULL OR a.v > 3", " WHERE b.v IS NULL"}), "join_using_outer"
+	case 3:
+		// every common column is a join column: id, v and s
+		sql, kind = "SELECT id, v, s, a.g FROM t1 a NATURAL "+pickS(g, "nat3", []string{"", "LEFT "})+"JOIN t3 b", "join_natural"
+	case 4:
+		sql, kind = "SELECT a.id, b.k, c.s AS cs FROM t1 a JOIN t2 b ON a.g = b.k "+pickS(g, "threeKind", []string{"JOIN", "LEFT JOIN", "FULL JOIN"})+" t3 c ON c.id = a.id"+g.where("a.", 30), "join_three"
+	case 5:
+		sql, kind = "SELECT a.id, b.k, c.id AS cid FROM t1 a LEFT JOIN t2 b ON a.h = b.w AND b.k < 2 LEFT JOIN t3 c ON c.v = a.v AND c.id % 7 = b.k", "join_three"
+	case 6:
+		// the small table on the left
+		sql, kind = "SELECT b.k, b.x, a.id FROM t2 b JOIN t1 a ON a.g = b.k"+pickS(g, "smallLeftX", []string{"", " AND a.v > 5", " WHERE a.h < 2"}), "join_small_left"
+	case 7:
+		sql, kind = fmt.Sprintf("SELECT b.k, a.id, a.s FROM t2 b LEFT JOIN t1 a ON a.h = b.w AND a.v > %d", g.rng("k", 5, 18)), "join_small_left"
+	default:
+		sql, kind = "SELECT b.k, a.id FROM t2 b FULL JOIN t1 a ON a.g = b.k AND a.h = b.w", "join_small_left"
+	}
+	if g.pct("joinOrder", 20) {
+		sql += " ORDER BY " + g.orderItems([]string{"a.g % 3", "a.h"}, 2)
+	}
+	return stmt{SQL: sql, Kind: kind, Sel: true, Tags: []string{"join5:" + kind}}
+}
+
 func (g *gctx) genJoin() stmt {
+	if g.pct("join5", 45) {
+		return g.genJoin5()
+	}
 	var sql string
 	kind := "join"
 	switch fw.Uniform(g.t, "joinKind", 10) {
@@ -533,12 +589,18 @@ func (g *gctx) genOrder() stmt {
 }
 
 var (
-	anaParts  = []string{"", "", "PARTITION BY g", "PARTITION BY h", "PARTITION BY g, h", "PARTITION BY s"}
+	anaParts = []string{"", "", "PARTITION BY g", "PARTITION BY h", "PARTITION BY g, h", "PARTITION BY s"}
+	// round 5: partitions by the hundred (id % 200: from 160 partitions on the partitions themselves are
+	// divided among goroutines for every size of t1 that has them) and a partition key with NULLs
+	anaParts5 = []string{"PARTITION BY id % 200", "PARTITION BY id % 200", "PARTITION BY v", "PARTITION BY id % 3, s"}
 	anaOrders = []string{"ORDER BY v", "ORDER BY v DESC", "ORDER BY s", "ORDER BY h, v", "ORDER BY f DESC NULLS LAST", "ORDER BY id", "ORDER BY g"}
 )
 
 func (g *gctx) anaFn(i int) (string, string) {
 	part := pickS(g, "anaPart", anaParts)
+	if g.pct("anaPart5", 25) {
+		part = pickS(g, "anaPart5v", anaParts5)
+	}
 	ord := pickS(g, "anaOrd", anaOrders)
 	over := func(withOrder bool, frame string) string {
 		var ps []string
@@ -555,8 +617,47 @@ func (g *gctx) anaFn(i int) (string, string) {
 	}
 	frame := pickS(g, "frame", []string{"", "", "ROWS BETWEEN 1 PRECEDING AND 1 FOLLOWING", "ROWS UNBOUNDED PRECEDING", "ROWS BETWEEN CURRENT ROW AND UNBOUNDED FOLLOWING", "ROWS BETWEEN 2 PRECEDING AND CURRENT ROW"})
 	var e string
+	tag := ""
 	usedOrd := ord
-	switch fw.Uniform(g.t, "anaFn", 16) {
+	fnIdx := fw.Uniform(g.t, "anaFn", 16)
+	if g.pct("anaFn5", 40) {
+		// round 5: the analytic functions, modifiers and argument forms no case had
+		fnIdx = 16 + fw.Uniform(g.t, "anaFn5v", 14)
+		tag = "ana5"
+	}
+	switch fnIdx {
+	case 16:
+		e = "PERCENT_RANK() " + over(true, "")
+	case 17:
+		e = fmt.Sprintf("NTH_VALUE(v, %d)%s ", g.rng("nth", 1, 3), pickS(g, "ignNulls", []string{"", " IGNORE NULLS"})) + over(true, frame)
+	case 18:
+		e = "FIRST_VALUE(v) IGNORE NULLS " + over(true, frame)
+	case 19:
+		e = "LAST_VALUE(s) IGNORE NULLS " + over(true, frame)
+	case 20:
+		e = fmt.Sprintf("LAG(v, %d, -1)%s ", g.rng("lagOff", 1, 3), pickS(g, "ignNulls", []string{"", " IGNORE NULLS"})) + over(true, "")
+	case 21:
+		e = "LEAD(v, 1, id) IGNORE NULLS " + over(true, "")
+	case 22:
+		e = "JSON_AGG(s) " + over(true, "")
+	case 23:
+		e = "LISTAGG(DISTINCT s, ',') " + over(false, "")
+		usedOrd = ""
+	case 24:
+		e = "COUNT(DISTINCT s) " + over(false, "")
+		usedOrd = ""
+	case 25:
+		e = pickS(g, "varFn", []string{"STDEV(v) ", "VAR(f) ", "STDEVP(f) ", "VARP(v) "}) + over(true, frame)
+	case 26:
+		e = "MIN(f) " + over(true, frame)
+	case 27:
+		// the argument is an expression over several columns, evaluated per row by the workers
+		e = "SUM(v * h + id % 3) " + over(true, frame)
+	case 28:
+		e = "LISTAGG(s || id, '/') " + over(true, "")
+	case 29:
+		e = "JSON_AGG(DISTINCT v) " + over(false, "")
+		usedOrd = ""
 	case 0:
 		e = "ROW_NUMBER() " + over(true, "")
 	case 1:
@@ -593,6 +694,12 @@ func (g *gctx) anaFn(i int) (string, string) {
 	default:
 		e = "MAX(s) " + over(true, frame)
 	}
+	if tag != "" {
+		g.anaTags = append(g.anaTags, "ana5:"+strings.SplitN(e, "(", 2)[0])
+	}
+	if strings.HasPrefix(part, "PARTITION BY id % 200") {
+		g.anaTags = append(g.anaTags, "ana5:partitions_200")
+	}
 	return fmt.Sprintf("%s AS w%d", e, i), usedOrd
 }
 
@@ -604,19 +711,30 @@ func (g *gctx) genAnalytic() stmt {
 	n := g.rng("nAna", 1, max)
 	var fns []string
 	ords := map[string]bool{}
+	g.anaTags = nil
 	for i := 1; i <= n; i++ {
 		e, o := g.anaFn(i)
 		fns = append(fns, e)
 		ords[o] = true
 	}
-	sql := "SELECT id, g, v, s, " + strings.Join(fns, ", ") + " FROM t1" + g.where("", 25)
+	from := " FROM t1"
+	kind := fmt.Sprintf("analytic%d", n)
+	// round 5: the analysed view is the result of a join (its records were assembled by the join's
+	// workers; t2's columns k, w, x do not collide with t1's, so every name stays unqualified)
+	if g.c.N1*g.c.N2 <= 8000 && g.pct("anaOverJoin", 15) {
+		from = " FROM t1 " + pickS(g, "anaJoinKind", []string{"JOIN", "LEFT JOIN"}) + " t2 ON h = w"
+		kind = "analytic_over_join"
+		g.anaTags = append(g.anaTags, "ana5:over_join")
+	}
+	sql := "SELECT id, g, v, s, " + strings.Join(fns, ", ") + from + g.where("", 25)
 	if g.pct("anaOuterOrder", 20) {
 		sql += " ORDER BY " + g.orderItems([]string{"v", "h", "g"}, 2)
 	}
-	st := stmt{SQL: sql, Kind: fmt.Sprintf("analytic%d", n), Sel: true}
+	st := stmt{SQL: sql, Kind: kind, Sel: true}
 	if n >= 3 {
 		st.Tags = []string{"analytic3"}
 	}
+	st.Tags = append(st.Tags, g.anaTags...)
 	return st
 }
 
@@ -671,9 +789,156 @@ func (g *gctx) genQuery() stmt {
 	}
 }
 
+// genDML5 (round 5): the data-changing statement forms no case had.
+func (g *gctx) genDML5() {
+	tag := func(k string) []string { return []string{"dml5:" + k} }
+	switch fw.Uniform(g.t, "dml5Kind", 7) {
+	case 0, 1:
+		// ALTER TABLE .. ADD with DEFAULT expressions that are evaluated for every record (one of them a
+		// correlated subquery: its inner task managers), at a drawn position; then RENAME / DROP
+		a, b := fmt.Sprintf("c%da", g.seq), fmt.Sprintf("c%db", g.seq)
+		d1 := pickS(g, "alterDef1", []string{"v * 2 + h", "s || id", "(SELECT COUNT(*) FROM t2 e WHERE e.w = h)", "UPPER(s) || g"})
+		d2 := pickS(g, "alterDef2", []string{"id % 7", "IFNULL(v, -1)", "(SELECT LISTAGG(e.k, ',') FROM t2 e WHERE e.w = h AND e.k < 30)"})
+		pos := pickS(g, "alterPos", []string{"", " FIRST", " LAST", " AFTER id", " BEFORE v"})
+		g.add(stmt{SQL: fmt.Sprintf("ALTER TABLE t1 ADD (%s DEFAULT %s, %s DEFAULT %s)%s", a, d1, b, d2, pos), Kind: "alter_add", Tags: tag("alter_add")})
+		g.add(stmt{SQL: "SELECT * FROM t1", Kind: "probe", Sel: true})
+		if g.pct("alterMore", 50) {
+			g.add(stmt{SQL: fmt.Sprintf("ALTER TABLE t1 RENAME %s TO r%s", a, a), Kind: "alter_rename", Tags: tag("alter_rename")})
+			g.add(stmt{SQL: fmt.Sprintf("ALTER TABLE t1 DROP %s", b), Kind: "alter_drop", Tags: tag("alter_drop")})
+			g.add(stmt{SQL: "SELECT * FROM t1", Kind: "probe", Sel: true})
+		}
+	case 2:
+		// one UPDATE that changes two tables of a join
+		g.add(stmt{SQL: "UPDATE a, c SET a.v = c.v + 1, c.s = a.s || '+' FROM t1 a JOIN t3 c ON a.id = c.id" + g.where("a.", 40), Kind: "update_two_tables", Tags: tag("update_two_tables")})
+		g.add(stmt{SQL: "SELECT * FROM t1", Kind: "probe", Sel: true})
+		g.add(stmt{SQL: "SELECT * FROM t3", Kind: "probe", Sel: true})
+	case 3:
+		g.add(stmt{SQL: "DELETE a, c FROM t1 a JOIN t3 c ON a.id = c.id" + g.where("a.", 70), Kind: "delete_two_tables", Tags: tag("delete_two_tables")})
+		g.add(stmt{SQL: "SELECT * FROM t1", Kind: "probe", Sel: true})
+		g.add(stmt{SQL: "SELECT * FROM t3", Kind: "probe", Sel: true})
+	case 4:
+		// the file attributes decide the bytes written at COMMIT
+		tbs := []string{"t3", "t2", "t1"}
+		if g.t1Temp {
+			tbs = tbs[:2] // t1 is a temporary table: it has no file attributes
+		}
+		tb := pickS(g, "attrTable", tbs)
+		switch fw.Uniform(g.t, "attrKind", 5) {
+		case 0:
+			g.add(stmt{SQL: "ALTER TABLE " + tb + " SET FORMAT TO " + pickS(g, "attrFormat", []string{"TSV", "JSON", "JSONL", "LTSV", "FIXED"}), Kind: "alter_set_format", Tags: tag("set_format")})
+		case 1:
+			g.add(stmt{SQL: "ALTER TABLE " + tb + " SET LINE_BREAK TO CRLF", Kind: "alter_set_attr", Tags: tag("set_line_break")})
+			g.add(stmt{SQL: "ALTER TABLE " + tb + " SET ENCLOSE_ALL TO TRUE", Kind: "alter_set_attr", Tags: tag("set_enclose_all")})
+		case 2:
+			g.add(stmt{SQL: "ALTER TABLE " + tb + " SET FORMAT TO JSON", Kind: "alter_set_format", Tags: tag("set_format")})
+			g.add(stmt{SQL: "ALTER TABLE " + tb + " SET PRETTY_PRINT TO TRUE", Kind: "alter_set_attr", Tags: tag("set_pretty_print")})
+			g.add(stmt{SQL: "ALTER TABLE " + tb + " SET JSON_ESCAPE TO " + pickS(g, "attrEsc", []string{"HEX", "HEXALL", "BACKSLASH"}), Kind: "alter_set_attr", Tags: tag("set_json_escape")})
+		case 3:
+			g.add(stmt{SQL: "ALTER TABLE " + tb + " SET ENCODING TO " + pickS(g, "attrEnc", []string{"UTF8M", "UTF16", "UTF16LEM", "SJIS"}), Kind: "alter_set_attr", Tags: tag("set_encoding")})
+		default:
+			g.add(stmt{SQL: "ALTER TABLE " + tb + " SET HEADER TO FALSE", Kind: "alter_set_attr", Tags: tag("set_header")})
+			g.add(stmt{SQL: "ALTER TABLE " + tb + " SET DELIMITER TO ';'", Kind: "alter_set_attr", Tags: tag("set_delimiter")})
+		}
+		col := map[string]string{"t1": "id", "t2": "k", "t3": "id"}[tb]
+		g.add(stmt{SQL: fmt.Sprintf("DELETE FROM %s WHERE %s %% 5 = %d", tb, col, g.rng("k", 0, 4)), Kind: "delete", Tags: tag("attr_then_delete")})
+		g.add(stmt{SQL: "SELECT * FROM " + tb, Kind: "probe", Sel: true})
+	case 5:
+		// the inserted values come from an analytic function over ties
+		g.add(stmt{SQL: fmt.Sprintf("INSERT INTO t3 (id, v, s) SELECT id + %d00000, ROW_NUMBER() OVER (PARTITION BY g ORDER BY v), FIRST_VALUE(s) OVER (PARTITION BY h ORDER BY v DESC) FROM t1", g.seq) + g.where("", 50), Kind: "insert_select_analytic", Tags: tag("insert_select_analytic")})
+		g.add(stmt{SQL: "SELECT * FROM t3", Kind: "probe", Sel: true})
+	default:
+		// a change that is rolled back: the tables are restored from the state kept at load / last commit
+		g.add(stmt{SQL: "UPDATE t1 SET v = v * 2, s = 'x'" + g.where("", 90), Kind: "update", Tags: tag("rolled_back")})
+		g.add(stmt{SQL: "DELETE FROM t3 WHERE id % 2 = 0", Kind: "delete"})
+		g.add(stmt{SQL: "ROLLBACK", Kind: "rollback", Tags: tag("rollback")})
+		g.add(stmt{SQL: "SELECT * FROM t1", Kind: "probe", Sel: true})
+		g.add(stmt{SQL: "SELECT * FROM t3", Kind: "probe", Sel: true})
+	}
+}
+
+// flagPrelude (round 5): 1-3 SET @@FLAG statements at the top of the program. The flags are read by
+// every worker through the shared flags object (comparison rule, datetime formats, NULL-ness of empty
+// fields at load time) or decide the bytes of created files and of the CLI's stdout.
+func (g *gctx) flagPrelude() {
+	type fl struct{ name, val string }
+	pool := []fl{
+		{"STRICT_EQUAL", "TRUE"},
+		{"DATETIME_FORMAT", `'["%d/%m/%Y", "%m/%d/%Y", "%Y%m%d", "%m-%d-%y %H.%i"]'`},
+		{"DATETIME_FORMAT", `'["%m/%d/%Y", "%d/%m/%Y", "%m-%d-%y %H.%i"]'`},
+		{"DATETIME_FORMAT", `'["%Y%m%d", "%d/%m/%Y", "%m/%d/%Y"]'`},
+		{"TIMEZONE", "'Asia/Tokyo'"},
+		{"TIMEZONE", "'America/Los_Angeles'"},
+		{"WITHOUT_NULL", "TRUE"},
+		{"SCIENTIFIC_NOTATION", "TRUE"},
+		{"COUNT_DIACRITICAL_SIGN", "TRUE"},
+		{"EAST_ASIAN_ENCODING", "TRUE"},
+		{"COUNT_FORMAT_CODE", "TRUE"},
+		{"ENCLOSE_ALL", "TRUE"},
+		{"LINE_BREAK", "CRLF"},
+		{"STRIP_ENDING_LINE_BREAK", "TRUE"},
+		{"WITHOUT_HEADER", "TRUE"},
+		{"JSON_ESCAPE", "HEX"},
+		{"PRETTY_PRINT", "TRUE"},
+		{"WRITE_ENCODING", "UTF8M"},
+	}
+	n := g.rng("nFlags", 1, 3)
+	seen := g.flagsSet
+	if seen == nil {
+		seen = map[string]bool{}
+	}
+	for i := 0; i < n; i++ {
+		f := pool[fw.Uniform(g.t, "flag", len(pool))]
+		if seen[f.name] {
+			continue
+		}
+		seen[f.name] = true
+		g.add(stmt{SQL: "SET @@" + f.name + " TO " + f.val, Kind: "declare", Tags: []string{"flag:" + f.name}})
+	}
+	g.flagsSet = seen
+}
+
+// flagProbe: a query whose per-row evaluation reads the flags of the prelude.
+func (g *gctx) flagProbe() {
+	if g.flagsSet["DATETIME_FORMAT"] {
+		// column e of t4 holds texts like 03/04/2021 that both %d/%m/%Y and %m/%d/%Y read (the first format
+		// of the list that fits decides), texts only one of them reads, and texts of the other formats
+		var sql, kind string
+		switch fw.Uniform(g.t, "dtProbe", 6) {
+		case 0:
+			sql, kind = "SELECT id, e, DATETIME(e) AS d1, MONTH(e) AS m1, DAY(e) AS dd, e < '2015-06-01' AS lt, DATE_DIFF(e, d) AS df FROM t4", "flag_probe_datetime"
+		case 1:
+			sql, kind = "SELECT id, e FROM t4 WHERE MONTH(e) > 6 OR e < '2010-01-01'", "flag_probe_datetime_where"
+		case 2:
+			sql, kind = "SELECT id, e, DATETIME(e) AS d1 FROM t4 ORDER BY DATETIME(e), id", "flag_probe_datetime_order"
+		case 3:
+			// sort values and comparison keys of datetime-like texts are built by the workers with the formats of the flag
+			sql, kind = "SELECT id, e FROM t4 ORDER BY e, id", "flag_probe_datetime_sortvalue"
+		case 4:
+			sql, kind = "SELECT m, COUNT(*) AS c, MIN(id) AS i0 FROM (SELECT id, MONTH(e) AS m FROM t4) q GROUP BY m ORDER BY m", "flag_probe_datetime_group"
+		default:
+			sql, kind = "SELECT a.id, b.id AS bid FROM t4 a JOIN (SELECT id, e FROM t4 WHERE id <= 40) b ON DATETIME(a.e) = ADD_DAY(DATETIME(b.e), 1)", "flag_probe_datetime_join"
+		}
+		g.add(stmt{SQL: sql, Kind: kind, Sel: true})
+	}
+	if g.flagsSet["TIMEZONE"] {
+		// texts without an offset are read in the session's zone
+		g.add(stmt{SQL: "SELECT id, d, DATETIME(d) AS d1, UNIX_TIME(d) AS ut, HOUR(UTC(d)) AS hu, DATETIME_FORMAT(d, '%Y-%m-%d %H:%i:%s %Z') AS f1 FROM t4" + pickS(g, "tzProbeX", []string{"", " WHERE HOUR(UTC(d)) < 12", " ORDER BY UNIX_TIME(d) % 86400, id"}), Kind: "flag_probe_timezone", Sel: true})
+	}
+	if g.flagsSet["STRICT_EQUAL"] {
+		g.add(stmt{SQL: "SELECT s, COUNT(*) AS c, LISTAGG(DISTINCT UPPER(s), ',') AS l FROM t1 GROUP BY s", Kind: "flag_probe_strict_equal", Sel: true, Tags: []string{"groupby_unordered"}})
+	}
+	if g.flagsSet["WITHOUT_NULL"] {
+		g.add(stmt{SQL: "SELECT id, v, s, v IS NULL AS vn, s = '' AS se, IFNULL(g, -1) AS gg FROM t1 WHERE v IS NULL OR v = '' OR s = ''", Kind: "flag_probe_without_null", Sel: true})
+	}
+}
+
 // genDML appends one data-changing statement and a probe SELECT of its target.
 func (g *gctx) genDML() {
 	g.seq++
+	if g.pct("dml5", 30) {
+		g.genDML5()
+		return
+	}
 	switch fw.Uniform(g.t, "dmlKind", 12) {
 	case 0:
 		g.add(stmt{SQL: fmt.Sprintf("INSERT INTO t3 SELECT id + %d00000, v, s FROM t1", g.seq) + g.where("", 80) + g.optOrder([]string{"v", "s"}, 30), Kind: "insert_select"})
@@ -799,12 +1064,40 @@ func genCaseFor(t *rapid.T, cli bool) detCase {
 		c.Procs = append(c.Procs, fw.PickU(t, "gomaxprocs", []int{1, 2, 3, 4, 8, 16}))
 	}
 	g := &gctx{t: t, c: &c, t3ids: t3ids, gDom: gDom, gs: gs, hs: hs}
+	if cli {
+		g.flagsSet = cliFlagOptions(t, &c)
+	}
+	if fw.Pct(t, "flagPrelude", 35) {
+		g.flagPrelude()
+	}
 	for _, d := range udfDecls {
 		g.add(stmt{SQL: d, Kind: "declare"})
 	}
 	nq := fw.Range(t, "nQueries", 1, 3)
 	for i := 0; i < nq; i++ {
 		g.add(g.genQuery())
+	}
+	g.flagProbe()
+	if len(g.flagsSet) > 0 && fw.Pct(t, "flagMid", 30) {
+		// the flags change in the middle of the program
+		switch fw.Uniform(t, "flagMidKind", 5) {
+		case 0:
+			g.add(stmt{SQL: "ADD '%d/%m/%Y' TO @@DATETIME_FORMAT", Kind: "declare", Tags: []string{"flag:mid_add_datetime_format"}})
+			g.add(stmt{SQL: "ADD '%m/%d/%Y' TO @@DATETIME_FORMAT", Kind: "declare"})
+			g.flagsSet["DATETIME_FORMAT"] = true
+		case 1:
+			g.add(stmt{SQL: "REMOVE 0 FROM @@DATETIME_FORMAT", Kind: "declare", Tags: []string{"flag:mid_remove_datetime_format"}})
+		case 2:
+			g.add(stmt{SQL: "SET @@STRICT_EQUAL TO " + pickS(g, "midStrict", []string{"TRUE", "FALSE"}), Kind: "declare", Tags: []string{"flag:mid_strict_equal"}})
+			g.flagsSet["STRICT_EQUAL"] = true
+		case 3:
+			g.add(stmt{SQL: "SET @@TIMEZONE TO " + pickS(g, "midTz", []string{"'UTC'", "'Asia/Tokyo'", "'Europe/Berlin'"}), Kind: "declare", Tags: []string{"flag:mid_timezone"}})
+			g.flagsSet["TIMEZONE"] = true
+		default:
+			g.add(stmt{SQL: "SET @@DATETIME_FORMAT TO '%m/%d/%Y'", Kind: "declare", Tags: []string{"flag:mid_set_datetime_format"}})
+			g.flagsSet["DATETIME_FORMAT"] = true
+		}
+		g.flagProbe()
 	}
 	if fw.Pct(t, "hasDML", 60) {
 		nd := fw.Range(t, "nDML", 1, 2)
@@ -822,7 +1115,55 @@ func genCaseFor(t *rapid.T, cli bool) detCase {
 	// every program ends with a sweep over the built-in scalar functions (last, so that a
 	// function failing on its arguments - identically on every run - cuts nothing else short)
 	g.add(g.genSweep())
+	// round 5: the number of cpus is not given as an option but set by the program (SET @@CPU) before
+	// a drawn statement: the session starts with one cpu and changes to the setting's value there
+	if fw.Pct(t, "cpuViaFlag", 20) && !hasOpt(c.CLIOpts, "-p") {
+		c.CPUAt = 1 + fw.Uniform(t, "cpuAt", len(c.Stmts))
+		c.Stmts[c.CPUAt-1].Tags = append(c.Stmts[c.CPUAt-1].Tags, "cpu_via:set_flag")
+	}
 	return c
+}
+
+// cliFlagOptions (round 5): further command-line options - the option form of the flags of flagPrelude -
+// and, as the third way to set them, a csvq_env.json in the working directory. Returns the flags set.
+func cliFlagOptions(t *rapid.T, c *detCase) map[string]bool {
+	set := map[string]bool{}
+	if fw.Pct(t, "cliOpts", 55) {
+		type opt struct {
+			flag string
+			args []string
+		}
+		pool := []opt{
+			{"STRICT_EQUAL", []string{"--strict-equal"}},
+			{"DATETIME_FORMAT", []string{"--datetime-format", `["%d/%m/%Y", "%m/%d/%Y", "%Y%m%d", "%m-%d-%y %H.%i"]`}},
+			{"DATETIME_FORMAT", []string{"--datetime-format", `["%m/%d/%Y", "%d/%m/%Y", "%m-%d-%y %H.%i"]`}},
+			{"TIMEZONE", []string{"--timezone", "Asia/Tokyo"}},
+			{"WITHOUT_NULL", []string{"--without-null"}},
+			{"ANSI_QUOTES", []string{"--ansi-quotes"}},
+			{"", []string{"--scientific-notation"}}, {"", []string{"--count-diacritical-sign"}}, {"", []string{"--east-asian-encoding"}}, {"", []string{"--count-format-code"}},
+			{"", []string{"--enclose-all"}}, {"", []string{"--line-break", "CRLF"}}, {"", []string{"--strip-ending-line-break"}}, {"", []string{"--without-header"}},
+			{"", []string{"--json-escape", "HEX"}}, {"", []string{"--pretty-print"}}, {"", []string{"--write-encoding", "UTF8M"}}, {"", []string{"--write-delimiter", ";"}},
+			{"", []string{"-p", "<cpu>"}}, // the short form of --cpu, given after it: the later one counts
+		}
+		n := fw.Range(t, "nCliOpts", 1, 3)
+		seen := map[string]bool{}
+		for i := 0; i < n; i++ {
+			o := pool[fw.Uniform(t, "cliOpt", len(pool))]
+			if seen[o.args[0]] {
+				continue
+			}
+			seen[o.args[0]] = true
+			c.CLIOpts = append(c.CLIOpts, o.args...)
+			if o.flag != "" {
+				set[o.flag] = true
+			}
+		}
+	}
+	if fw.Pct(t, "envFile", 15) {
+		c.Tables = append(c.Tables, tbl{Name: "csvq_env.json", CSV: `{"datetime_format": ["%m/%d/%Y", "%d/%m/%Y", "%Y%m%d"], "timezone": "America/Los_Angeles"}` + "\n"})
+		set["DATETIME_FORMAT"], set["TIMEZONE"] = true, true
+	}
+	return set
 }
 
 func genCase(t *rapid.T) detCase { return genCaseFor(t, false) }
@@ -853,13 +1194,40 @@ type runOut struct {
 	Parallel int64
 }
 
-func program(c detCase) string {
+// program is the text shown in messages ("<cpu>" stands for the setting); programFor the text that runs.
+func program(c detCase) string { return programFor(c, -1) }
+
+func programFor(c detCase, cpu int) string {
 	var b strings.Builder
-	for _, s := range c.Stmts {
+	for i, s := range c.Stmts {
+		if c.CPUAt == i+1 {
+			if cpu < 0 {
+				b.WriteString("SET @@CPU TO <cpu>;\n")
+			} else {
+				fmt.Fprintf(&b, "SET @@CPU TO %d;\n", cpu)
+			}
+		}
 		b.WriteString(s.SQL)
 		b.WriteString(";\n")
 	}
 	return b.String()
+}
+
+func hasOpt(opts []string, o string) bool {
+	for _, x := range opts {
+		if x == o {
+			return true
+		}
+	}
+	return false
+}
+
+// optionCPU: the cpu count the session / process is started with.
+func optionCPU(c detCase, cpu int) int {
+	if c.CPUAt > 0 {
+		return 1
+	}
+	return cpu
 }
 
 func canonCell(v run.Val) string {
@@ -905,14 +1273,17 @@ func runInProcess(c detCase, dir string, cpu int) (runOut, error) {
 	if err := resetDir(dir, c); err != nil {
 		return out, err
 	}
-	s, err := run.NewSess(run.Opt{Dir: dir, CPU: cpu, WaitTimeout: 10 * time.Minute, Stdin: c.Stdin, HasStdin: c.Stdin != ""})
+	s, err := run.NewSess(run.Opt{Dir: dir, CPU: optionCPU(c, cpu), WaitTimeout: 10 * time.Minute, Stdin: c.Stdin, HasStdin: c.Stdin != "", CaptureOut: c.Capture})
 	if err != nil {
 		return out, err
 	}
 	p0 := atomic.LoadInt64(&query.VerifParallelTasks)
-	res := s.Exec(program(c))
+	res := s.Exec(programFor(c, cpu))
 	out.Parallel = atomic.LoadInt64(&query.VerifParallelTasks) - p0
 	s.Close()
+	if c.Capture {
+		out.Stdout = s.Out.String()
+	}
 	if res.ParseErr {
 		return out, fmt.Errorf("generated program does not parse: %v", res.Err)
 	}
@@ -1024,6 +1395,8 @@ func compare(c detCase, ref, got runOut, setting string) *fw.Violation {
 			sig = "replace_unmatched_order"
 		case hasTag(st, "analytic3"):
 			sig = "analytic_eval_order_map"
+		case hasTag(st, "udf_dml_order") && same:
+			sig = "udf_dml_in_parallel_query_order"
 		case same:
 			sig = "row_order_differs:" + src.Kind
 		}
@@ -1033,6 +1406,9 @@ func compare(c detCase, ref, got runOut, setting string) *fw.Violation {
 			return fw.V("header_differs:"+src.Kind, "%s: header of result %d (%s) differs: %q vs %q", setting, i, st.SQL, show(hdrA), show(hdrB))
 		}
 		return fw.V(sig, "%s: result %d differs from the cpu=1 reference (same multiset of rows: %v)\nstatement: %s\n%s", setting, i, same, src.SQL, firstRowDiff(ref.Rows[i], got.Rows[i]))
+	}
+	if ref.Stdout != got.Stdout {
+		return fw.V("captured_output_differs", "%s: the captured standard output differs from the reference run although the stored result sets are equal\n%s\nprogram:\n%s", setting, firstRowDiff(strings.Split(ref.Stdout, "\n"), strings.Split(got.Stdout, "\n")), program(c))
 	}
 	if ref.Err != got.Err {
 		return fw.V("error_differs", "%s: error %q, reference %q\nprogram:\n%s", setting, got.Err, ref.Err, program(c))
@@ -1072,6 +1448,9 @@ func classesOf(c detCase) []string {
 	cl = append(cl, prefixTags(c, "errsrc:")...)
 	cl = append(cl, prefixTags(c, "src:")...)
 	cl = append(cl, prefixTags(c, "out:")...)
+	for _, p := range []string{"ana5:", "join5:", "dml5:", "flag:", "fn5:", "proc:", "cpu_via:"} {
+		cl = append(cl, prefixTags(c, p)...)
+	}
 	// the goroutine counts a task manager over all of t1 is given by the settings of this case
 	seen := map[int]bool{}
 	for _, cpu := range c.CPUs {
@@ -1179,6 +1558,12 @@ func checkCase(c detCase) (fw.Outcome, *fw.Violation) {
 				o.More = append(o.More, f+"|per-row over >=160 rows")
 			}
 		}
+		// round 5: every new shape counts once per size class of t1 it ran in parallel with
+		for _, p := range []string{"ana5:", "join5:", "dml5:", "flag:", "fn5:", "proc:", "cpu_via:"} {
+			for _, t := range prefixTags(c, p) {
+				o.More = append(o.More, fmt.Sprintf("%s|n1=%d", t, c.N1))
+			}
+		}
 	} else {
 		o.Classes = append(o.Classes, "not_parallel")
 	}
@@ -1189,7 +1574,7 @@ func TestC12InProcess(t *testing.T) {
 	fw.Run(t, fw.Spec[detCase]{
 		ID: "C12", Name: "in_process", Quick: 220, Thorough: 4800,
 		Gen: genCase, Check: checkCase,
-		Rule: "four CSV tables (t1 from the threshold-straddling size classes 5..1000 and, with lower weight, 299/300/301 around the loader's prepared capacity, 639/640/641 where 8 goroutines start and 1279/1280/1281/1700 where 16 goroutines start; join partner t2, DML target t3, t4 for the function sweep; contents expanded from one drawn seed) and a program of 1-3 queries (filter, every join kind, GROUP BY with aggregates incl. LISTAGG/JSON_AGG, DISTINCT, set operators, ORDER BY with ties and LIMIT/OFFSET, 1-4 analytic functions, subqueries, user-defined functions and aggregates, a sweep over the built-in scalar functions) plus 0-2 of INSERT..SELECT / UPDATE / DELETE / REPLACE each followed by SELECT * of its target, then COMMIT; the program runs in-process with cpu in {1, 2, three drawn values of 3..15, 16} x r runs (quick 3 - 2 from 1279 rows on -, thorough 10) under a drawn cycle of GOMAXPROCS values; every run must give the result sets (header, rows, row order; text and NULL-ness), the error and the bytes of every file of the first cpu=1 run; non-trivial = the verif counter saw a task manager with >1 goroutine in a non-reference run; distinct by (operator kinds, size class of t1); the classes t1_goroutines:N list the goroutine counts a task manager over all of t1 is given under the settings of the case",
+		Rule: "four CSV tables (t1 from the threshold-straddling size classes 5..1000 and, with lower weight, 299/300/301 around the loader's prepared capacity, 639/640/641 where 8 goroutines start and 1279/1280/1281/1700 where 16 goroutines start; join partner t2, DML target t3, t4 for the function sweep; contents expanded from one drawn seed) and a program of 1-3 queries (filter, every join kind, GROUP BY with aggregates incl. LISTAGG/JSON_AGG, DISTINCT, set operators, ORDER BY with ties and LIMIT/OFFSET, 1-4 analytic functions, subqueries, user-defined functions and aggregates, a sweep over the built-in scalar functions) plus 0-2 of INSERT..SELECT / UPDATE / DELETE / REPLACE each followed by SELECT * of its target, then COMMIT; the program runs in-process with cpu in {1, 2, three drawn values of 3..15, 16} x r runs (quick 3 - 2 from 1279 rows on -, thorough 10) under a drawn cycle of GOMAXPROCS values; every run must give the result sets (header, rows, row order; text and NULL-ness), the error and the bytes of every file of the first cpu=1 run; non-trivial = the verif counter saw a task manager with >1 goroutine in a non-reference run; distinct by (operator kinds, size class of t1); the classes t1_goroutines:N list the goroutine counts a task manager over all of t1 is given under the settings of the case. Round 5 adds, inside the same programs: (35% of cases) a prelude of 1-3 SET @@FLAG statements - STRICT_EQUAL, DATETIME_FORMAT with 3-4 formats of which two read the same texts differently (%d/%m/%Y, %m/%d/%Y), TIMEZONE, WITHOUT_NULL, SCIENTIFIC_NOTATION, the three character-width flags, ENCLOSE_ALL, LINE_BREAK, STRIP_ENDING_LINE_BREAK, WITHOUT_HEADER, JSON_ESCAPE, PRETTY_PRINT, WRITE_ENCODING - followed by a probe query per evaluation flag (column e of t4 holds texts both formats read, texts only one reads and texts of the other formats; DATETIME / MONTH / comparison / ORDER BY value / sort value of the text / GROUP BY / join condition over it), and (30% of those) a change of a flag in the middle of the program (ADD .. TO / REMOVE .. FROM @@DATETIME_FORMAT, SET) with the probes repeated; (20%) the cpu count set by the program: the session starts with one cpu and SET @@CPU TO <setting> runs before a drawn statement; analytic functions PERCENT_RANK, NTH_VALUE, FIRST/LAST_VALUE and LAG/LEAD with IGNORE NULLS, offsets and defaults, JSON_AGG and LISTAGG(DISTINCT) / COUNT(DISTINCT) / JSON_AGG(DISTINCT) as analytic functions, STDEV/VAR/MIN windows, expression arguments, PARTITION BY id % 200, and analytic functions over a join; NATURAL [LEFT|RIGHT|FULL] JOIN, outer joins with USING, chains of three tables, and joins with the small table on the left; ALTER TABLE ADD (DEFAULT expressions incl. correlated subqueries, position) / RENAME / DROP, UPDATE and DELETE of two joined tables at once, ALTER TABLE SET FORMAT / LINE_BREAK / ENCLOSE_ALL / ENCODING / HEADER / DELIMITER / JSON_ESCAPE / PRETTY_PRINT followed by a DELETE (the file is rewritten with those attributes at COMMIT), INSERT..SELECT of analytic values, and changes undone by ROLLBACK; in the function sweep, arguments whose pattern / format / JSON query differs from row to row and arguments in the formats of @@DATETIME_FORMAT; each of these shapes counts as distinct once per size class of t1 it ran in parallel with",
 		Assumptions: []string{
 			"goroutine schedules are sampled (r runs per setting, GOMAXPROCS varied): no divergence in r runs is not a proof",
 			"cells are compared by text and NULL-ness, not by csvq value type",
@@ -1207,7 +1592,7 @@ func runCLI(bin string, c detCase, dir string, cpu int, procs int, timeout time.
 		return out, run.CLIRes{}, err
 	}
 	src := dir + ".sql"
-	if err := os.WriteFile(src, []byte(program(c)), 0644); err != nil {
+	if err := os.WriteFile(src, []byte(programFor(c, cpu)), 0644); err != nil {
 		return out, run.CLIRes{}, err
 	}
 	defer os.Remove(src)
@@ -1226,7 +1611,13 @@ func cliArgs(c detCase, cpu int, src string) []string {
 	if f == "" {
 		f = "CSV"
 	}
-	args := []string{"--cpu", fmt.Sprint(cpu), "-f", f, "-q"}
+	args := []string{"--cpu", fmt.Sprint(optionCPU(c, cpu)), "-f", f, "-q"}
+	for _, o := range c.CLIOpts {
+		if o == "<cpu>" {
+			o = fmt.Sprint(cpu)
+		}
+		args = append(args, o)
+	}
 	if c.OutTo != "" {
 		args = append(args, "-o", c.OutTo)
 	}
@@ -1240,6 +1631,16 @@ func checkCLICase(c detCase) (fw.Outcome, *fw.Violation) {
 	}
 	if c.OutFmt != "" {
 		o.Classes = append(o.Classes, "format:"+c.OutFmt)
+	}
+	for _, op := range c.CLIOpts {
+		if strings.HasPrefix(op, "-") {
+			o.Classes = append(o.Classes, "cliopt:"+op)
+		}
+	}
+	for _, tb := range c.Tables {
+		if tb.Name == "csvq_env.json" {
+			o.Classes = append(o.Classes, "cliopt:csvq_env.json")
+		}
 	}
 	if c.OutTo != "" {
 		o.Classes = append(o.Classes, "result_sets_to:file")
@@ -1339,7 +1740,7 @@ func TestC12CLI(t *testing.T) {
 	fw.Run(t, fw.Spec[detCase]{
 		ID: "C12", Name: "cli", Quick: 24, Thorough: 480,
 		Gen: genCLICase, Check: checkCLICase,
-		Rule:        "the same generator; the program is run by the csvq binary as `csvq --cpu N -f FORMAT -q [-o result.out] -s prog.sql` with FORMAT drawn from CSV, TSV, FIXED, JSON, JSONL, LTSV, GFM, ORG, BOX, TEXT and the result sets going to stdout or (35%) to a file, for N in {1, 2, three drawn values of 3..15, 16} x r runs (quick 2, thorough 4) with the GOMAXPROCS environment variable varied; stdout, stderr, exit code and the bytes of every file in the repository after the run must equal those of the first --cpu 1 run; non-trivial = an in-process run of the same program at cpu 16 used a task manager with >1 goroutine; distinct by (operator kinds, size class of t1)",
+		Rule:        "the same generator; the program is run by the csvq binary as `csvq --cpu N -f FORMAT -q [-o result.out] -s prog.sql` with FORMAT drawn from CSV, TSV, FIXED, JSON, JSONL, LTSV, GFM, ORG, BOX, TEXT and the result sets going to stdout or (35%) to a file, for N in {1, 2, three drawn values of 3..15, 16} x r runs (quick 2, thorough 4) with the GOMAXPROCS environment variable varied; stdout, stderr, exit code and the bytes of every file in the repository after the run must equal those of the first --cpu 1 run; non-trivial = an in-process run of the same program at cpu 16 used a task manager with >1 goroutine; distinct by (operator kinds, size class of t1). Round 5: (55%) 1-3 further command-line options - --strict-equal, --datetime-format with ambiguous formats, --timezone, --without-null, --ansi-quotes, --scientific-notation, the character-width options, --enclose-all, --line-break, --strip-ending-line-break, --without-header, --json-escape, --pretty-print, --write-encoding, --write-delimiter, -p after --cpu - and (15%) a csvq_env.json in the working directory that sets datetime_format and timezone; the programs carry the round-5 shapes of in_process (flag prelude and probes, SET @@CPU in the program with the process started as --cpu 1, ...)",
 		Assumptions: []string{"goroutine schedules are sampled", "a run that exceeds 60 s is repeated once with 240 s before it counts (loaded machine)"},
 	})
 }
